@@ -131,6 +131,18 @@ impl Check for NftVotes {
             if c.try_get_votes_at_checkpoint(&a(0), &now).is_ok() { return Err(violation("future.refused", "query", i, "current ledger answered".into())); }
             st.state(&(m.del.clone(), m.owner.len().min(20)));
         }
+        // end of run: the whole past (every touched ledger and its neighbours)
+        let now = w.now();
+        let mut qs = vec![0, cfg.start_ledger];
+        for t in touched.iter() { qs.extend([t.saturating_sub(1), *t, t + 1]); }
+        qs.sort(); qs.dedup();
+        for q in qs.into_iter().filter(|q| *q < now) {
+            for x in 0..cfg.actors {
+                let want = m.tl.get(&x).map(|tl| Model::at(tl, q)).unwrap_or(0);
+                if c.try_get_votes_at_checkpoint(&a(x), &q) != Ok(Ok(want)) { return Err(violation("past.eq_timeline", "votes_sweep", steps.len(), format!("actor {x} ledger {q}: want {want}"))); }
+            }
+            if c.try_get_total_supply_at_checkpoint(&q) != Ok(Ok(Model::at(&m.stl, q))) { return Err(violation("past.eq_timeline", "supply_sweep", steps.len(), format!("ledger {q}"))); }
+        }
         Ok(())
     }
 }
